@@ -71,12 +71,21 @@ Definition copy_actions (fc : fin_cfg) (src dst : rel) (e : copy_env) : list sys
 Definition link_actions (dst : rel) (text : name) : list sysact := [ASymlink (KDst dst) text].
 
 (* Operation::Special *)
-Definition special_actions (no_clobber : bool) (src dst : rel) (dst_exists : bool) : list sysact * bool :=
+Definition special_actions (no_clobber : bool) (src dst : rel) (dst_exists same_file : bool) : list sysact * bool :=
   let pre := [AStat (KDst dst)] in
   if dst_exists then
     if no_clobber then (pre, false)
+    else if same_file then (pre ++ [AStat (KSrc src)], false)      (* refused: the target is the source node itself *)
     else (pre ++ [AUnlink (KDst dst); AStat (KSrc src); AMknod (KDst dst)], true)
   else (pre ++ [AStat (KSrc src); AMknod (KDst dst)], true).
+
+(* CopyHandle::new as a whole: a destination the (link-following) probe calls absent is looked at once more with
+   lstat; a DANGLING symbolic link there is refused — creating the destination would create a file wherever the
+   link happens to point, possibly outside the destination (like cp: `not writing through dangling symlink`) *)
+Definition copy_actions_d (dangling : bool) (fc : fin_cfg) (src dst : rel) (e : copy_env) : list sysact * bool :=
+  if negb (ce_dst_exists e) && dangling
+  then ([AOpenRO (KSrc src); AStat (KSrc src); AStat (KDst dst)], false)
+  else copy_actions fc src dst e.
 
 (* the keys an operation on target `dst` owns *)
 Definition owned (dst : rel) (k : key) : Prop :=
@@ -127,10 +136,10 @@ Definition known_class_04 (a : sysact) : bool :=
 
 (* ---- the documented step order of the three functions whose CALL ORDER the translator extracts
    (codes: 20 open source, 21 fstat source, 22 probe destination, 23 same-file check, 24 backup decision,
-   25 backup name (directory scan), 1 rename, 2 create+truncate, 3 ftruncate, 4 clone attempt,
+   26 lstat of a destination the probe called absent, 25 backup name (directory scan), 1 rename, 2 create+truncate, 3 ftruncate, 4 clone attempt,
    30 sparseness test, 31 sparse walk, 32 plain loop, 40 CopyHandle::new, 41 Arc::new, 42 extent map,
    43 merge, 44 queue a range, 45 queue the whole file, 97 closure, 98 return) ---- *)
-Definition copy_new_steps : list N := [20; 21; 22; 23; 98; 24; 25; 1; 2; 3].
+Definition copy_new_steps : list N := [20; 21; 22; 23; 98; 26; 98; 24; 25; 1; 2; 3].
 Definition copy_file_steps : list N := [4; 98; 30; 31; 32].
 Definition queue_file_blocks_steps : list N := [40; 4; 98; 41; 97; 30; 42; 43; 44; 45; 45].
 
